@@ -145,7 +145,7 @@ extern int mpt_world_set(MPT_STRUCT(world) *wld, const char *name, MPT_INTERFACE
 	}
 	if (!strcasecmp(name, "color") || !strcasecmp(name, "colour")) {
 		if (!src) {
-			wld->cyc = def_world.cyc;
+			wld->color = def_world.color;
 			return 0;
 		}
 		return mpt_color_pset(&wld->color, src);
